@@ -154,3 +154,35 @@ contract("decaylanguage.dec.dec.get_particle_property_definitions", types={"pars
                                         + particle_props("_acc", "_seq", "_i"),
                            "types": {"_acc": "dict"}}},
          returns="dict", properties=["C07"])
+
+
+# ---- Pythia<TYPE>Param <MODULE>:<PARAM>=<VALUE> --------------------------------------------------------------------------
+def pythia_props(d, S, n):
+    T = lambda j: f"{S}[{j}].children[0].value"
+    K = lambda j: f"({S}[{j}].children[1].value + ':' + {S}[{j}].children[2].value)"
+    V = lambda j: f"{S}[{j}].children[3].value"
+    E = lambda j: f"dget(dget({d}, {T(j)}), {K(j)})"
+    last = lambda j: f"forall(lambda l: implies({j} < l < {n}, not ({T('l')} == {T(j)} and {K('l')} == {K(j)})))"
+    return [
+        # every statement accounted for, under its type and its MODULE:PARAM key ...
+        f"forall(lambda j: implies(0 <= j < {n}, dhas({d}, {T('j')}) and typ(dget({d}, {T('j')}), 'dict') and dhas(dget({d}, {T('j')}), {K('j')})))",
+        # ... nothing invented ...
+        f"forallv(lambda t: implies(dhas({d}, t), typ(dget({d}, t), 'dict') and exists(lambda j: 0 <= j < {n} and {T('j')} == t)))",
+        f"forallv(lambda t, k: implies(dhas({d}, t) and dhas(dget({d}, t), k), exists(lambda j: 0 <= j < {n} and {T('j')} == t and {K('j')} == k)))",
+        # ... and the LAST statement for a (type, key) gives the value: a number when it reads as one, the word otherwise
+        f"forall(lambda j: implies(0 <= j < {n} and {last('j')} and float_ok({V('j')}), {E('j')} == float({V('j')})))",
+        f"forall(lambda j: implies(0 <= j < {n} and {last('j')} and not float_ok({V('j')}), same({E('j')}, {V('j')})))",
+    ]
+
+
+SY = "stmts(parsed_file, 'pythia_def')"
+contract("decaylanguage.dec.dec.get_pythia_definitions", types={"parsed_file": "obj:Tree"},
+         requires=["wf_labels(parsed_file, 'pythia_def')"],
+         ensures=["typ(result, 'dict') and isfresh(result)"] + pythia_props("result", SY, f"len({SY})"),
+         loops={"loop#0": {"invariant": ["typ(d, 'dict') and isfresh(d)",
+                                         # the per-type dictionaries are objects of their own, made in this loop
+                                         "forallv(lambda t: implies(dhas(d, t), typ(dget(d, t), 'dict') and refnum(dget(d, t)) >= _loop_alloc))",
+                                         "forallv(lambda t, u: implies(dhas(d, t) and dhas(d, u) and t != u, not same(dget(d, t), dget(d, u))))"]
+                                        + pythia_props("d", "_seq", "_i"),
+                           "types": {"d": "dict"}}},
+         returns="dict", properties=[])   # WIP
